@@ -16,7 +16,7 @@ func (e *Engine) call(st *State, fr *Frame, c *ssa.Call) []Outcome {
 	for k, a := range cc.Args {
 		args[k] = e.get(st, fr, a)
 	}
-	one := func(v ...Val) []Outcome { return []Outcome{{st, v}} }
+	one := func(v ...Val) []Outcome { return []Outcome{{st: st, ret: v}} }
 
 	if cc.IsInvoke() {
 		recv := e.get(st, fr, cc.Value)
@@ -52,21 +52,46 @@ func (e *Engine) call(st *State, fr *Frame, c *ssa.Call) []Outcome {
 	if callee == nil {
 		switch fv := e.get(st, fr, cc.Value).(type) {
 		case FuncV:
+			e.pendingParent = fr
 			return e.execFunc(st, fv.Fn, args, fv.Bind, fr.depth+1)
 		case FuncSym:
 			return e.callback(st, fr, fv, args, c)
 		}
 		fail("dynamic call %s", c)
 	}
+	return e.callFn(st, fr, callee, args, c)
+}
+
+// callFn dispatches a call whose callee is known: library model, observer, contract, or inlining.
+func (e *Engine) callFn(st *State, fr *Frame, callee *ssa.Function, args []Val, c *ssa.Call) []Outcome {
+	one := func(v ...Val) []Outcome { return []Outcome{{st: st, ret: v}} }
 	name := callee.String()
 	if outs, ok := e.libCall(st, fr, name, args, c); ok {
 		return outs
+	}
+	if e.observer[name] || e.observer[callee.Name()] || e.observer[contractStem(callee)] {
+		// a pure function of its arguments, kept abstract in this unit (its own unit verifies it): the results are
+		// uninterpreted functions of the arguments, so two calls with equal arguments agree
+		var ts []*Term
+		for _, a := range args {
+			if p, ok := a.(PtrCell); ok { // address of a local: identified by the value it holds
+				a = getPath(st.cells[p.ID], p.Path)
+			}
+			ts = append(ts, flattenVal(a)...)
+		}
+		var ret []Val
+		res := callee.Signature.Results()
+		for k := 0; k < res.Len(); k++ {
+			ret = append(ret, e.ufVal(st, res.At(k).Type(), fmt.Sprintf("obs_%s_%d_a%d", contractStem(callee), k, len(ts)), ts))
+		}
+		e.nonNilUnlessError(st, ret)
+		return one(ret...)
 	}
 	if !st.spec && callee != e.unitFn && callee.Pkg != nil && (e.findContract(callee, "requires") != nil || len(e.findContracts(callee, "ensures")) > 0) {
 		return e.applyContract(st, fr, callee, args)
 	}
 	if callee.Pkg != nil && e.pkgs[callee.Pkg.Pkg.Path()] != nil || strings.Contains(name, "vspec") {
-		if e.havoc[name] {
+		if e.havoc[name] || e.havoc[callee.Name()] || e.havoc[contractStem(callee)] {
 			e.warn("call to %s havocked", name)
 			var ret []Val
 			res := callee.Signature.Results()
@@ -75,6 +100,12 @@ func (e *Engine) call(st *State, fr *Frame, c *ssa.Call) []Outcome {
 			}
 			return one(ret...)
 		}
+		e.pendingParent = fr
+		return e.execFunc(st, callee, args, nil, fr.depth+1)
+	}
+	if callee.Synthetic != "" && callee.Blocks != nil {
+		// wrappers for promoted methods
+		e.pendingParent = fr
 		return e.execFunc(st, callee, args, nil, fr.depth+1)
 	}
 	fail("call to unmodelled function %s", name)
@@ -98,15 +129,31 @@ func (e *Engine) invoke(st *State, fr *Frame, recv Val, method string, args []Va
 		sig := c.Call.Signature()
 		var ret []Val
 		for k := 0; k < sig.Results().Len(); k++ {
-			ret = append(ret, e.ufVal(st, sig.Results().At(k).Type(), fmt.Sprintf("ifc_%s_%s_%d", typeName(is.T), method, k), ts))
+			ret = append(ret, e.ufVal(st, sig.Results().At(k).Type(), fmt.Sprintf("ifc_%s_%s_%d_a%d", typeName(is.T), method, k, len(ts)), ts))
 		}
-		return []Outcome{{st, ret}}
+		e.nonNilUnlessError(st, ret)
+		return []Outcome{{st: st, ret: ret}}
 	}
 	iv, ok := recv.(IfaceV)
 	if !ok {
 		fail("invoke on %T", recv)
 	}
-	fail("invoke %s on %v not modelled", method, iv.Tag)
+	if iv.Tag == nil {
+		e.oblige(st, "safe:nil-iface", tFalse, "method call on nil interface")
+		return nil
+	}
+	// the dynamic type is known on this path: static dispatch
+	ms := e.prog.MethodSets.MethodSet(iv.Tag)
+	for k := 0; k < ms.Len(); k++ {
+		if ms.At(k).Obj().Name() == method {
+			fn := e.prog.MethodValue(ms.At(k))
+			if fn == nil {
+				break
+			}
+			return e.callFn(st, fr, fn, append([]Val{iv.V}, args...), c)
+		}
+	}
+	fail("invoke %s on %v: no such method", method, iv.Tag)
 	return nil
 }
 
@@ -232,7 +279,7 @@ func (e *Engine) sliceOfText(st *State, ps []Piece, str bool) SliceV {
 }
 
 func (e *Engine) libCall(st *State, fr *Frame, name string, args []Val, c *ssa.Call) ([]Outcome, bool) {
-	one := func(v ...Val) ([]Outcome, bool) { return []Outcome{{st, v}}, true }
+	one := func(v ...Val) ([]Outcome, bool) { return []Outcome{{st: st, ret: v}}, true }
 	switch name {
 	case "(encoding/binary.littleEndian).Uint16", "(encoding/binary.littleEndian).Uint32", "(encoding/binary.littleEndian).Uint64",
 		"(encoding/binary.bigEndian).Uint16", "(encoding/binary.bigEndian).Uint32", "(encoding/binary.bigEndian).Uint64":
@@ -581,7 +628,7 @@ func (e *Engine) doAppend(st *State, fr *Frame, s SliceV, add ListV) []Outcome {
 			e.oblige(st1, "frame:append-in-place", Not(ULt(s.Base, Add(alloc0, BVu(1, 64)))), "append writes into the spare capacity of a pre-existing slice")
 		}
 		write(st1, dst)
-		outs = append(outs, Outcome{st1, []Val{dst}})
+		outs = append(outs, Outcome{st: st1, ret: []Val{dst}})
 	}
 	// reallocate: fresh object sharing the old contents mapping (same window offset)
 	st2 := st.clone()
@@ -602,7 +649,7 @@ func (e *Engine) doAppend(st *State, fr *Frame, s SliceV, add ListV) []Outcome {
 			}
 		}
 		write(st2, dst)
-		outs = append(outs, Outcome{st2, []Val{dst}})
+		outs = append(outs, Outcome{st: st2, ret: []Val{dst}})
 	}
 	return outs
 }
@@ -636,7 +683,7 @@ func (e *Engine) applyContract(st *State, fr *Frame, callee *ssa.Function, args 
 		a := e.evalContract(st, ens, cargs, true)
 		st.assumeT(a)
 	}
-	return []Outcome{{st, ret}}
+	return []Outcome{{st: st, ret: ret}}
 }
 
 
@@ -667,27 +714,112 @@ func flattenVal(v Val) []*Term {
 }
 
 
-// callback models a call through a function value of unknown identity: the result is unconstrained; if it is an
-// error, the path is split on nil-ness and the callback-ok hook of the contract file runs on the nil branch.
+// callback models a call through a function value of unknown identity (a handler stored in a field): the
+// callback contract vc_callback_<field>_requires is an obligation at the call site, the result is unconstrained;
+// if it is an error the path is split on nil-ness and the hook vc_hook_callback_ok_<field> runs on the nil branch.
+// Contract and hook parameters beyond the callback's own arguments are bound by name in the dynamic frame chain.
 func (e *Engine) callback(st *State, fr *Frame, fv FuncSym, args []Val, c *ssa.Call) []Outcome {
 	sig := c.Call.Signature()
 	if sig.Results().Len() != 1 || !isError(sig.Results().At(0).Type()) {
 		fail("callback with unsupported signature")
 	}
-	field := "sendTransaction"
+	field := fieldNameOf(c.Call.Value)
+	if field == "" {
+		fail("call through a function value that is not a struct field")
+	}
+	pkg := e.unitFn.Pkg
+	bind := func(f *ssa.Function, s *State) []Val {
+		out := append([]Val{}, args...)
+		for _, p := range f.Params[len(args):] {
+			v, ok := e.lookupName(s, fr, p.Name())
+			if !ok {
+				fail("%s: no variable named %s in scope at the callback", f.Name(), p.Name())
+			}
+			out = append(out, v)
+		}
+		return out
+	}
+	if req := e.note(pkg.Func("vc_callback_" + field + "_requires")); req != nil && !st.spec {
+		g := e.evalContract(st, req, bind(req, st), false)
+		e.oblige(st, "callback-pre:"+field, g, req.Name())
+	}
 	var outs []Outcome
 	// failure branch
 	st1 := st.clone()
-	outs = append(outs, Outcome{st1, []Val{ErrV{NonNil: tTrue, ID: Sym(fresh("cberr"), 64)}}})
+	outs = append(outs, Outcome{st: st1, ret: []Val{ErrV{NonNil: tTrue, ID: Sym(fresh("cberr"), 64)}}})
 	// success branch: run the hook
 	st2 := st.clone()
-	if hook := fr.fn.Pkg.Func("vc_hook_callback_ok_" + field); hook != nil {
-		hs := e.execFunc(st2, hook, args, nil, fr.depth+1)
+	if hook := e.note(pkg.Func("vc_hook_callback_ok_" + field)); hook != nil {
+		e.pendingParent = fr
+		hs := e.execFunc(st2, hook, bind(hook, st2), nil, fr.depth+1)
 		if len(hs) != 1 {
 			fail("hook %s must be straight-line", hook.Name())
 		}
 		st2 = hs[0].st
 	}
-	outs = append(outs, Outcome{st2, []Val{ErrV{NonNil: tFalse, ID: BVu(0, 64)}}})
+	outs = append(outs, Outcome{st: st2, ret: []Val{ErrV{NonNil: tFalse, ID: BVu(0, 64)}}})
 	return outs
+}
+
+// fieldNameOf: the struct field a function value was loaded from.
+func fieldNameOf(v ssa.Value) string {
+	if u, ok := v.(*ssa.UnOp); ok {
+		if fa, ok := u.X.(*ssa.FieldAddr); ok {
+			if pt, ok := fa.X.Type().Underlying().(*types.Pointer); ok {
+				if st, ok := pt.Elem().Underlying().(*types.Struct); ok {
+					return st.Field(fa.Field).Name()
+				}
+			}
+		}
+	}
+	return ""
+}
+
+// lookupName finds a source variable by name: locals of the frame, captured variables and parameters, then the
+// frames of the callers.
+func (e *Engine) lookupName(st *State, fr *Frame, name string) (Val, bool) {
+	for f := fr; f != nil; f = f.parent {
+		if id, ok := f.named[name]; ok {
+			return st.cells[id], true
+		}
+		for i, fv := range f.fn.FreeVars {
+			if fv.Name() == name {
+				if p, ok := f.regs[fv].(PtrCell); ok {
+					return getPath(st.cells[p.ID], p.Path), true
+				}
+				_ = i
+			}
+		}
+		if v, ok := f.entry[name]; ok {
+			return v, true
+		}
+	}
+	return nil, false
+}
+
+
+// nonNilUnlessError: convention assumed for abstract callees (observers, interface methods of the environment):
+// when the error result is nil, pointer and interface results are non-nil. Listed among the unit's assumptions.
+func (e *Engine) nonNilUnlessError(st *State, ret []Val) {
+	var errNil *Term
+	for _, r := range ret {
+		if ev, ok := r.(ErrV); ok {
+			errNil = Not(ev.NonNil)
+		}
+	}
+	if errNil == nil {
+		errNil = tTrue
+		if len(ret) != 1 {
+			return
+		}
+	}
+	zero := BVu(0, 64)
+	for _, r := range ret {
+		switch x := r.(type) {
+		case PtrHeap:
+			st.assumeT(Implies(errNil, Not(Eq(x.Ref, zero))))
+		case IfaceSym:
+			st.assumeT(Implies(errNil, Not(Eq(x.ID, zero))))
+		}
+	}
 }
